@@ -568,7 +568,7 @@ SPEC = Spec(
         "(normalised), and the values lowering distinguishes are the admitted "
         "ones. R02-SIBLING: the three index-lowering rules handle integer and "
         "slice indices identically (sibling cross-check). "
-        "R02-BIND also: concatenate offsets are taken from the list of upper bounds (running sum), the upper bounds accumulate; in the einsum lowering the broadcast test comes first in the per-axis loop, for every descriptor kind. R02-DOMAIN also: a group of axes reshaped onto itself passes its index variables through at any rank."),
+        "R02-BIND also: concatenate offsets are taken from the list of upper bounds (running sum), the upper bounds accumulate; in the einsum lowering, on every path through the per-axis loop the broadcast test (operand length vs. the einsum's length for the descriptor) is evaluated before the descriptor kind is tested, before an index variable is appended and before a binding or reduction bound is recorded, and the arm that appends subscript 0 does nothing else (path events, not statement positions). R02-DOMAIN also: a group of axes reshaped onto itself passes its index variables through at any rank."),
     not_decided=(
         "The index arithmetic itself (slice normalisation, reshape stride/modulo, "
         "roll sign, concatenate offsets, advanced-index axis placement): a "
